@@ -1,5 +1,6 @@
 import DdoModel.WfRel
 import DdoModel.Examples.Knapsack
+import DdoModel.Examples.KnapsackDp
 import DdoModel.Props.C06
 /-! The DP model of the shipped knapsack example (`ddo/examples/knapsack/main.rs`) in Lean, and the proof that it is
     well formed relative to the layer-validity predicate "the depth stored in the state is the depth of the layer"
@@ -15,62 +16,12 @@ Mirror of the Rust code (state = `(depth, capacity)`):
 * transition: `depth + 1`, capacity minus the weight when the value is `1`; cost `profit[var] * value`;
 * `merge` = `max_by_key(capacity)`: the **last** maximal state in iteration order (as `Iterator::max_by_key`);
   `[]` (an `unwrap` panic in Rust) is mapped to `(0, 0)`; `relax` = the cost unchanged;
-* `fast_upper_bound`: the fractional (Dantzig) bound following `order` from `state.depth`.  The Rust code computes the
-  last, fractional, term in `f64` (`(capacity / weight) * profit`, then `floor`); the model computes
-  `⌊capacity * profit / weight⌋` on exact integers — an abstraction of the float computation (they agree whenever the
-  two roundings do not cross an integer; not verified here). -/
+* `fast_upper_bound`: the fractional (Dantzig) bound following `order` from `state.depth` (exact integer arithmetic, as the
+  code since fix 4f57927).  Definitions: `KnapsackDp.lean`. -/
 namespace Ddo.Examples.KnapsackModel
 open Ddo Ddo.Examples
 
-structure Inst where
-  capacity : Nat
-  profit : List Int
-  weight : List Nat
-  order : List Nat
-
-abbrev St := Nat × Nat     -- (depth, capacity)
-
 variable (I : Inst)
-
-def Inst.p (i : Nat) : Int := (I.profit[i]?).getD 0
-def Inst.w (i : Nat) : Nat := (I.weight[i]?).getD 0
-
-/-- the items `order[k..]` as (profit, weight) pairs -/
-def Inst.itemsFrom (k : Nat) : List (Int × Nat) := (I.order.drop k).map (fun i => (I.p i, I.w i))
-
-def problem : Problem St :=
-  { nbVars := I.profit.length
-    init := (0, I.capacity)
-    initVal := 0
-    trans := fun s d => (s.1 + 1, if d.val = 1 then s.2 - I.w d.var else s.2)
-    cost := fun _ _ d => I.p d.var * d.val
-    nextVar := fun depth _ => I.order[depth]?
-    domain := fun x s => if I.w x ≤ s.2 then [1, 0] else [0]
-    impacted := fun _ _ => true }
-
-/-- `max_by_key(|s| s.capacity)`: the last maximal element -/
-def mergeStates : List St → St
-  | [] => (0, 0)
-  | s :: r => r.foldl (fun best t => if best.2 ≤ t.2 then t else best) s
-
-/-- the Dantzig bound: whole items while they fit, then the floor of the fraction of the first that does not -/
-def dantzig : List (Int × Nat) → Nat → Int
-  | [], _ => 0
-  | (p, w) :: rest, c =>
-    if c = 0 then 0
-    else if w ≤ c then p + dantzig rest (c - w)
-    else ((c : Int) * p) / (w : Int)
-
-def relaxation : Relax St :=
-  { merge := mergeStates
-    relax := fun _ _ _ _ c => c
-    rub := fun s => dantzig (I.itemsFrom s.1) s.2 }
-
-/-- value-to-go: the best profit of the items `order[k..]` within the remaining capacity; defined on consistent states -/
-def H (k : Nat) (s : St) : EInt := if s.1 = k then some (Knapsack.best s.2 (I.itemsFrom k)) else none
-
-/-- layer validity: the depth stored in the state is the depth of the layer -/
-def V (k : Nat) (s : St) : Prop := s.1 = k
 
 /-! ## `merge` -/
 
